@@ -206,6 +206,53 @@ def check_C12(tier, seed):
             jobs_gen.append((jid, gp, os.path.join(wd, "g%d_%d.rs" % (gi, ri)), "-", "vfrt::Ctx" if g.user_ctx else "-"))
             meta[jid] = (gi, ri, text, exp, spell_class, sum(1 for c, sp in spell if sp != c))
             k += 1
+    # directive order is free ("directives in any order"): permuting the directives of a rule (keeping the relative
+    # order of its @check functions, which are called in written order) must not change the generated code
+    perm_jobs = []
+    perm_meta = {}
+    import copy
+    for gi in range(ngr):
+        prof = profs[gi % len(profs)]
+        g = ggen.Gen(random.Random("c12/%s/%d" % (seed, gi)), ggen.profile(prof)).grammar()
+        if not any(r.kind == "rule" and len(r.directives) >= 2 for r in g.rules):
+            continue
+        for pi in range(3):
+            prnd = random.Random("c12p/%s/%d/%d" % (seed, gi, pi))
+            g2 = copy.deepcopy(g)
+            changed = False
+            for r in g2.rules:
+                if r.kind != "rule" or len(r.directives) < 2:
+                    continue
+                checks_ = [d for d in r.directives if isinstance(d, tuple)]
+                others = [d for d in r.directives if not isinstance(d, tuple)]
+                prnd.shuffle(others)
+                slots = sorted(prnd.sample(range(len(r.directives)), len(checks_)))
+                new = []
+                ci = oi = 0
+                for k_ in range(len(r.directives)):
+                    if ci < len(slots) and k_ == slots[ci]:
+                        new.append(checks_[ci])
+                        ci += 1
+                    else:
+                        new.append(others[oi])
+                        oi += 1
+                if pi == 0 and checks_:
+                    new = checks_ + others  # all checks first: everything else is written after a @check
+                if pi == 1 and checks_:
+                    new = others + checks_
+                if new != r.directives:
+                    changed = True
+                r.directives = new
+            if not changed:
+                continue
+            text = grender.render(g2, None)
+            gp = os.path.join(wd, "p%d_%d.ebnf" % (gi, pi))
+            with open(gp, "w", encoding="utf-8") as f:
+                f.write(text)
+            jid = "p%d_%d" % (gi, pi)
+            perm_jobs.append((jid, gp, os.path.join(wd, "p%d_%d.rs" % (gi, pi)), "-", "vfrt::Ctx" if g.user_ctx else "-"))
+            perm_meta[jid] = (gi, text)
+    rp = build.run_cgdrv("gen", perm_jobs, wd) if perm_jobs else {}
     ra = build.run_cgdrv("ast", jobs_ast, wd)
     rg = build.run_cgdrv("gen", jobs_gen, wd)
     nontriv = 0
@@ -243,6 +290,23 @@ def check_C12(tier, seed):
             elif code is not None and code != ref[2]:
                 out.violation("c12:gen-differs:%d:%d" % (gi, ri), "equal grammars in different layout/spelling generate different code",
                               {"grammar_text": text, "grammar_text_ref": ref[1]})
+    nperm = 0
+    for jid, (gi, text) in perm_meta.items():
+        ref = by_g.get(gi)
+        if not ref:
+            continue
+        evaluations += 1
+        nontriv += 1
+        nperm += 1
+        r = rp.get(jid)
+        code = None
+        if r and r[0] == "ok":
+            with open(os.path.join(wd, jid + ".rs"), encoding="utf-8") as f:
+                code = f.read()
+        if code != ref[0][2]:
+            out.violation("c12:directive-order:%d" % gi, "the same rule directives written in another order give %s" % ("different code" if code is not None and ref[0][2] is not None else "a different outcome (%s vs %s)" % (r[:1] if r else None, ref[0][3][:1] if ref[0][3] else None)),
+                          {"grammar_text": text, "grammar_text_ref": ref[0][1]})
+    out.coverage["directive_permutations"] = nperm
     out.samples = [{"grammar_text": meta[j][2][:600], "rendering": meta[j][1]} for j in list(meta)[5:8]]
     out.coverage["grammars"] = ngr
     out.coverage["renderings_per_grammar"] = nrend
